@@ -26,10 +26,10 @@ type sortKey struct {
 }
 
 type c05Query struct {
-	Kind  string    `json:"kind"`  // default | head | tail | sort | page
-	N     int       `json:"n"`     // size / head / tail / sort limit / page size
-	Keys  []sortKey `json:"keys"`  // sort
-	UseHd bool      `json:"useHd"` // sort … | head N instead of size
+	Kind  string    `json:"kind"`            // default | head | tail | sort | page
+	N     int       `json:"n"`               // size / head / tail / sort limit / page size
+	Keys  []sortKey `json:"keys"`            // sort
+	UseHd bool      `json:"useHd"`           // sort … | head N instead of size
 	SortN bool      `json:"sortN,omitempty"` // the limit is the sort command's own: sort N keys / sort limit=N keys
 }
 
